@@ -603,8 +603,8 @@ void fixed_sched(Ctx &ctx, SchedProp which, const char *pid)
         add(op, 1, bpc, std::max(0, len - 15), 2, 3);
       }
       // T = 2
-      add(op, 2, bpc, 0, bpc == 1 ? 2 : 1, 3);
-      add(op, 2, bpc, chunk - 1, bpc == 1 ? 2 : 1, 3);
+      add(op, 2, bpc, 0, 2, 3);
+      add(op, 2, bpc, chunk - 1, 2, 3);
       add(op, 2, bpc, chunk - 16, 1, 2);
       add(op, 2, bpc, 2 * chunk - 1, 1, 2);
       add(op, 2, bpc, 3 * chunk - 1, 1, 2);
@@ -623,7 +623,7 @@ void fixed_sched(Ctx &ctx, SchedProp which, const char *pid)
     add(op, 4, 1, 63, -1, 1);
   }
   add("ver", 2, 1, 20, 2, 3);
-  uint64_t cap = ctx.thorough() ? 150000 : 60000;
+  uint64_t cap = ctx.thorough() ? 400000 : 80000;
   uint64_t i = 0, total = 0, completed = 0, capped = 0;
   // largest trees first so that the shards finish together
   std::stable_sort(m.begin(), m.end(), [&](const Cfg &x, const Cfg &y) {
